@@ -267,6 +267,30 @@ fn thread_sleeping(ktid: i32) -> bool {
     }
 }
 
+/// Every thread of the process except the calling one (the supervisor) sleeps in a futex wait: a state
+/// that cannot change by itself. Threads the code under test created for itself count too - while one
+/// of them runs, a caller waiting for it is not blocked for good.
+fn all_other_tasks_asleep() -> bool {
+    let me = unsafe { libc::syscall(libc::SYS_gettid) } as i32;
+    let dir = match std::fs::read_dir("/proc/self/task") {
+        Ok(d) => d,
+        Err(_) => return false,
+    };
+    let mut n = 0;
+    for e in dir.flatten() {
+        if let Some(t) = e.file_name().to_str().and_then(|s| s.parse::<i32>().ok()) {
+            if t == me {
+                continue;
+            }
+            n += 1;
+            if !thread_sleeping(t) {
+                return false;
+            }
+        }
+    }
+    n > 0
+}
+
 fn runnable_mask(st: &St) -> Vec<bool> {
     (0..st.alive.len()).map(|t| st.alive[t] && !st.blocked[t]).collect()
 }
@@ -659,7 +683,12 @@ pub fn execute(spec: &RunSpec, chooser: Chooser, pool: Arc<dyn Pool + Send + Syn
                         asleep_ticks = 0;
                         continue;
                     }
-                    let all_in_futex = (0..st.alive.len()).filter(|t| st.alive[*t]).all(|t| thread_sleeping(st.ktids[t]));
+                    drop(st);
+                    let all_in_futex = all_other_tasks_asleep();
+                    st = shared.m.lock().unwrap();
+                    if st.current != NOBODY {
+                        continue;
+                    }
                     if all_in_futex {
                         asleep_ticks += 1;
                     } else {
@@ -682,9 +711,9 @@ pub fn execute(spec: &RunSpec, chooser: Chooser, pool: Arc<dyn Pool + Send + Syn
                 // other live client thread sleep in futex waits (the others parked, the holder on
                 // something one of them holds). If any of them is runnable - e.g. the previous holder was
                 // descheduled while still holding the state lock during the hand-over - nothing is concluded.
-                let ktids: Vec<i32> = (0..st.alive.len()).filter(|t| st.alive[*t]).map(|t| st.ktids[t]).collect();
+                let started = (0..st.alive.len()).filter(|t| st.alive[*t]).all(|t| st.ktids[t] > 0);
                 drop(st);
-                let asleep = cur != MAIN && !ktids.is_empty() && ktids.iter().all(|k| thread_sleeping(*k));
+                let asleep = cur != MAIN && started && all_other_tasks_asleep();
                 st = shared.m.lock().unwrap();
                 if st.steps != last_steps || st.current != cur {
                     last_steps = st.steps;
